@@ -8,15 +8,24 @@
 package main
 
 import (
+	"bufio"
+	"context"
+	"io"
+	"net"
+	"path/filepath"
+	"strings"
+
 	"flag"
 	"fmt"
 	"os"
 	"strconv"
 	"time"
 
+	"github.com/mgtv-tech/redis-GunYu/cmd"
 	"github.com/mgtv-tech/redis-GunYu/config"
 	"github.com/mgtv-tech/redis-GunYu/pkg/redis/checkpoint"
 	"github.com/mgtv-tech/redis-GunYu/pkg/redis/client"
+	"github.com/mgtv-tech/redis-GunYu/pkg/redis/client/common"
 
 	"verifh/fakeredis"
 	"verifh/hx"
@@ -90,7 +99,7 @@ func readResume(srv *fakeredis.Server, ids []string) resume {
 	cli := connect(srv)
 	defer cli.Close()
 	name, _, err := checkpoint.GetCheckpointHash(cli, ids)
-	if err != nil {
+	if err != nil && err != common.ErrNil {
 		hx.Fatal("GetCheckpointHash: %v", err)
 	}
 	if name == "" {
@@ -131,6 +140,159 @@ func runOp(cli client.Redis, sc *scenario) error {
 	return checkpoint.UpdateCheckpoint(cli, local, ids)
 }
 
+// ---------------------------------------------------------------------------
+// the collector as the tool runs it: cmd.gcStaleCheckpoint asks every source which replication ids it still
+// reports and spares the newest checkpoint of those
+
+type fakeInfoSource struct {
+	ln       net.Listener
+	id1, id2 string
+}
+
+func startInfoSource() *fakeInfoSource {
+	ln, err := net.Listen("tcp", "127.0.0.1:0")
+	if err != nil {
+		hx.Fatal("%v", err)
+	}
+	fs := &fakeInfoSource{ln: ln}
+	go func() {
+		for {
+			c, err := ln.Accept()
+			if err != nil {
+				return
+			}
+			go func(c net.Conn) {
+				defer c.Close()
+				r := bufio.NewReader(c)
+				for {
+					line, err := r.ReadString('\n')
+					if err != nil {
+						return
+					}
+					if !strings.HasPrefix(line, "*") {
+						continue
+					}
+					n, _ := strconv.Atoi(strings.TrimSpace(line[1:]))
+					var args []string
+					for i := 0; i < n; i++ {
+						l, err := r.ReadString('\n')
+						if err != nil {
+							return
+						}
+						sz, _ := strconv.Atoi(strings.TrimSpace(l[1:]))
+						buf := make([]byte, sz+2)
+						if _, err := io.ReadFull(r, buf); err != nil {
+							return
+						}
+						args = append(args, string(buf[:sz]))
+					}
+					if len(args) > 0 && strings.EqualFold(args[0], "info") {
+						body := fmt.Sprintf("# Replication\r\nrole:master\r\nmaster_replid:%s\r\nmaster_replid2:%s\r\nmaster_repl_offset:5000\r\nsecond_repl_offset:4000\r\n", fs.id1, fs.id2)
+						fmt.Fprintf(c, "$%d\r\n%s\r\n", len(body), body)
+					} else if len(args) > 0 && strings.EqualFold(args[0], "ping") {
+						fmt.Fprintf(c, "+PONG\r\n")
+					} else {
+						fmt.Fprintf(c, "+OK\r\n")
+					}
+				}
+			}(c)
+		}
+	}()
+	return fs
+}
+
+const idOther = "eeeeeeeeeeeeeeeeeeeeeeeeeeeeeeeeeeeeeeee"
+
+// runGcLive: initial states x what the source reports x staleness; one event each
+func runGcLive(tr *hx.Trace, srv *fakeredis.Server, seed uint64, n, shard, shards int, work string, wd *hx.Watchdog) (int, []interface{}) {
+	fs := startInfoSource()
+	defer fs.ln.Close()
+	yaml := fmt.Sprintf("server:\n  listen: 127.0.0.1:18001\n  listenPeer: 127.0.0.1:18001\ninput:\n  redis:\n    addresses: [%s]\n    type: standalone\n"+
+		"channel:\n  storer:\n    dirPath: %s\n    maxSize: 1073741800\n    logSize: 10971520\noutput:\n  replay:\n    resumeFromBreakPoint: true\n    keyExists: replace\n    targetDb: -1\n"+
+		"  redis:\n    addresses: [%s]\n    type: standalone\nlog:\n  level: error\n  handler:\n    stdout: false\ncluster:\n  groupName: verif\n  leaseTimeout: 9s\n",
+		fs.ln.Addr().String(), filepath.Join(work, "gcdir"), srv.Addr())
+	cfgPath := filepath.Join(work, "gc.yaml")
+	if err := os.WriteFile(cfgPath, []byte(yaml), 0o644); err != nil {
+		hx.Fatal("%v", err)
+	}
+	if err := config.InitSyncerConfig(cfgPath); err != nil {
+		hx.Fatal("config: %v", err)
+	}
+	if os.Getenv("VERIF_LOGS") == "" {
+		hx.QuietLogs()
+	}
+	gc := config.GetSyncerConfig()
+	gc.Channel.Type = config.ChannelTypeMemory // no cache directory to collect
+	gc.Input.Redis.SetClusterShards([]*config.RedisClusterShard{{Master: config.RedisNode{Address: fs.ln.Addr().String()}}})
+	gc.Output.Redis.SetClusterShards([]*config.RedisClusterShard{{Master: config.RedisNode{Address: srv.Addr()}}})
+	sc := cmd.NewSyncerCmd()
+	runs := 0
+	var samples []interface{}
+	id := 5000000 + shard
+	for i := 0; i < n; i++ {
+		if i%shards != shard {
+			continue
+		}
+		r := hx.NewRng(seed*7717 + uint64(i))
+		st := &scenario{op: "gclive", staleMs: 3600_000}
+		ndb := 1 + r.Intn(3)
+		used := map[int]bool{}
+		for len(st.entries) < ndb {
+			d := r.Intn(4)
+			if used[d] {
+				continue
+			}
+			used[d] = true
+			st.entries = append(st.entries, cpEntry{db: d, off: int64(100 + r.Intn(900)), runid: true, ageMs: int64(r.Intn(2)) * 7200_000})
+			st.dataDbs = append(st.dataDbs, d)
+		}
+		// what the source reports: the checkpoint's id as current id, as previous id (fail-over not yet re-keyed), or not at all
+		report := []string{"current", "previous", "gone"}[r.Intn(3)]
+		switch report {
+		case "current":
+			fs.id1, fs.id2 = idOld, strings.Repeat("0", 40)
+		case "previous":
+			fs.id1, fs.id2 = idNew, idOld
+		default:
+			fs.id1, fs.id2 = idOther, strings.Repeat("0", 40)
+		}
+		wd.Kick(fmt.Sprintf("gclive state %d %s", i, report))
+		gc.Channel.StaleCheckpointDuration = time.Duration(st.staleMs) * time.Millisecond
+		seedState(srv, st)
+		before := readResume(srv, []string{idOld})
+		reqBase := srv.RecvCount()
+		sc.VerifGcStaleCheckpoint(context.Background())
+		gcReqs := srv.RecvCount() - reqBase
+		if gcReqs == 0 {
+			hx.Fatal("the collector never reached the target (state %d)", i)
+		}
+		for j := 0; j < 2000 && srv.ConnCount() > 0; j++ {
+			time.Sleep(100 * time.Microsecond)
+		}
+		// next start of the syncer of that source
+		ids := []string{fs.id1}
+		if fs.id2 != strings.Repeat("0", 40) {
+			ids = append(ids, fs.id2)
+		}
+		if report != "gone" {
+			cli2 := connect(srv)
+			if err := checkpoint.UpdateCheckpoint(cli2, cpA, ids); err != nil {
+				hx.Fatal("next start UpdateCheckpoint: %v", err)
+			}
+			cli2.Close()
+		}
+		after := readResume(srv, ids)
+		id += shards
+		tr.Emit(map[string]interface{}{"ev": "Maint", "id": id, "op": "gclive", "k": 0, "total": 0, "crashed": false, "operr": false, "reported": report, "gcRequests": gcReqs,
+			"before": before, "after": after, "state": fmt.Sprint(st.entries), "datadbs": fmt.Sprint(st.dataDbs)})
+		runs++
+		if len(samples) < 1 {
+			samples = append(samples, map[string]interface{}{"op": "gclive", "source_reports": report, "checkpoints(db,off,ageMs,runid)": fmt.Sprint(st.entries)})
+		}
+	}
+	return runs, samples
+}
+
 func main() {
 	out := flag.String("out", "trace.ndjson", "")
 	statsPath := flag.String("stats", "stats.json", "")
@@ -139,6 +301,7 @@ func main() {
 	reps := flag.Int("reps", 4, "repetitions per crash point (map iteration order)")
 	shard := flag.Int("shard", 0, "")
 	shards := flag.Int("shards", 1, "")
+	work := flag.String("work", "", "scratch directory (enables the runs of the collector as the tool drives it)")
 	flag.Parse()
 	hx.QuietLogs()
 	tr, err := hx.NewTrace(*out)
@@ -219,7 +382,7 @@ func main() {
 					cli2.Close()
 				}
 				after := readResume(srv, ids)
-				tr.Emit(map[string]interface{}{"ev": "Maint", "id": id, "op": sc.op, "k": k, "total": total, "crashed": crashed, "operr": opErr != nil,
+				tr.Emit(map[string]interface{}{"ev": "Maint", "id": id, "op": sc.op, "k": k, "total": total, "crashed": crashed, "operr": opErr != nil, "reported": "",
 					"before": before, "after": after, "state": fmt.Sprint(sc.entries), "datadbs": fmt.Sprint(sc.dataDbs)})
 				nRuns++
 			}
@@ -227,6 +390,11 @@ func main() {
 		if len(samples) < 3 {
 			samples = append(samples, map[string]interface{}{"op": sc.op, "checkpoints(db,off,ageMs,runid)": fmt.Sprint(sc.entries), "data_dbs": sc.dataDbs, "requests": total})
 		}
+	}
+	if *work != "" {
+		gr, gs := runGcLive(tr, srv, *seed, *n*4, *shard, *shards, *work, wd)
+		nRuns += gr
+		samples = append(samples, gs...)
 	}
 	if err := tr.Close(); err != nil {
 		hx.Fatal("%v", err)
